@@ -27,18 +27,18 @@ CHECKS = {
             "SMT-based bounded translation validation of the real compiler (go/ssa symbolic execution, z3 + cvc5)"),
     "C05": (TV, "4 (C05)",
             "Every program the real compiler emits for the shapes of the families (incl. empty groups, all-empty policies on four architectures, maximal lists) is run through x/net/bpf's real raw encoder (symbolically executed) and a model of bpf_check_classic + seccomp_check_filter; load offsets are bit-vector obligations under a symbolic argument index; every RET operand is shown to be enc(default), enc(some group action) or ERRNO|ENOSYS for all action words.",
-            "Trusted: kmiCheck (port of the kernel verifier rules, ~60 lines), engine, solvers. Programs > 4096 instructions are outside by the statement.",
+            "Trusted: kmiCheck (port of the kernel verifier rules, ~60 lines), engine, solvers. Programs > 4096 instructions are outside by the statement. In the small family argument indices are arbitrary 32-bit values with NO validity assumption: whatever the compiler accepts must be valid.",
             "SMT-based validation of emitted programs against a verifier model (go/ssa symbolic execution, z3 + cvc5)"),
     "C06": (TV, "4 (C06)",
-            "Label programs r0 J1 r1 .. JK rK ret ret are built through the real public builder and assembled by the real assembler (symbolically executed); for every program of the family (all K=1, stride+seeded slice of K=2, sampled K=3/4; distances around 255/256 and 505..515) SMT decides assembled-list == label-level program for all 16 input words and all jump operands. Also the policy-level programs above 255 instructions.",
-            "Trusted: abstract label machine vAbsRun (~40 lines), KMI, engine, solvers. Distances are the listed run lengths, not symbolic (the symbolic-distance deepening of DESIGN.md was not built).",
+            "Label programs r0 J1 r1 .. JK rK ret ret are built through the real public builder and assembled by the real assembler (symbolically executed); for every program of the family (all K=1, stride+seeded slice of K=2, sampled K=3/4; distances around 255/256 and 505..515) SMT decides assembled-list == label-level program for all 16 input words and all jump operands. Also the policy-level programs above 255 instructions. Symbolic distances: the assembler also runs on a constructed pre-state with a symbolic-length instruction list (abstract slice) and symbolic jump/label indices; for all 17 one-jump programs (both tiers) and 48 sampled two-jump programs (thorough) every resolved skip is shown to lead - directly or through inserted long jumps - to the marked instruction or a copy of the marked return, for EVERY distance up to 2^20; termination is an obligation (step budget).",
+            "Trusted: abstract label machine vAbsRun (~40 lines), the abstract-slice model (gosym/abs.go), KMI, engine, solvers. Programs with 3-4 jumps only at the listed run lengths; two-jump symbolic programs only for the sampled target combinations.",
             "SMT-based bounded translation validation of the real assembler (go/ssa symbolic execution, z3 + cvc5)"),
     "C07": (MC, "4 (C07)",
             "Symbolic execution of the real compiler on every valid base shape of weight <=5/6 with one defect injected at each position in turn; the defect payload is symbolic (any non-kernel action word; any string that is not a key of the table; any index > 5; any string that is none of the eight operations), so one SMT verdict per instance covers all payload values: every path returns err != nil and no program and no panic path is feasible. Valid shapes up to weight 6/8 and the large shapes are accepted on every path.",
             "Trusted: engine, equality-atom string encoding, solvers; models replayed natively. Two defects at once and the GOARCH-default path to an architecture without tables (C19) are outside.",
             "SMT-based bounded symbolic execution of the real validator/compiler with symbolic defect payloads (z3 + cvc5)"),
     "C08": (TV, "4 (C08)",
-            "The real LoadFilter is executed symbolically with syscall.Syscall redirected to a kernel-contract stub. At the seccomp call the harness dereferences the pointer argument exactly as the kernel would and SMT decides: length and every element equal the raw encoding of the compiled program, and the memory at the pointer, evaluated by the kernel model, decides like the policy for all events. What the running kernel then does with those bytes (EPERM/SIGSYS delivery to probe syscalls) is represented by the KMI model, not decided on the host kernel.",
+            "The real LoadFilter is executed symbolically with syscall.Syscall redirected to a kernel-contract stub. At the seccomp call the harness dereferences the pointer argument exactly as the kernel would and SMT decides: length and every element equal the raw encoding of the compiled program, and the memory at the pointer, evaluated by the kernel model, decides like the policy for all events. What the running kernel then does with those bytes is represented by the KMI model for the deciding step; in addition every run SAMPLES the running kernel (not deciding): 60/400 policies over harmless probe syscalls are installed by the real LoadFilter in child processes and probed with chosen 64-bit register values - errno / success / SIGSYS must equal the model.",
             "Trusted: kernel contract stub, KMI, refDecide, engine (unsafe.Pointer/uintptr provenance model), solvers. Native replay runs seccomp_linux.go with its syscall selectors mechanically rewritten to the stub.",
             "SMT-based translation validation at the syscall boundary (go/ssa symbolic execution with a kernel-contract stub, z3 + cvc5)"),
     "C09": (MC, "4 (C09)",
@@ -82,7 +82,7 @@ CHECKS = {
             "Crash model: a process crash leaves a prefix of the sequentially written data, rename is atomic; no power-loss/fsync reasoning, no concurrent runs. File system, bufio.Writer and exec are harness models (~200 lines). String queries are decided by z3 4.8.12 / 5.1.0 (first definite answer, no independent cross-check).",
             "SMT string solving (concatenation/prefix/length classes) over a two-run history of the real cache code with symbolic crash points (z3)"),
     "C18": (MC, "4 (C18)",
-            "The real main() of the profiler (dedup map, filterBlacklist, addWhitelist, sort, output selection) is executed symbolically with k <= 2/3 discovered syscalls whose numbers are symbolic keys of the real table and blacklist/allow-list entries that are arbitrary strings; symbolic-key map updates fork over equality patterns and maps are iterated in both orders. For a fresh symbolic string x SMT decides x in out <=> (found and not blacklisted) or (allowed and a table name), duplicate-freedom, table membership, that the emitted slice is the one sort.Strings was last applied to, and that the captured policy is {errno, [{allow, out}]}.",
+            "The real main() of the profiler (dedup map, filterBlacklist, addWhitelist, sort, output selection) is executed symbolically with k <= 2/3 discovered syscalls (quick additionally (k,nb,na) = (2,2,0) and (1,0,2)) whose numbers are symbolic keys of the real table and blacklist/allow-list entries that are arbitrary strings; symbolic-key map updates fork over equality patterns and maps are iterated in both orders. For a fresh symbolic string x SMT decides x in out <=> (found and not blacklisted) or (allowed and a table name), duplicate-freedom, table membership, that the emitted slice is the one sort.Strings was last applied to, and that the captured policy is {errno, [{allow, out}]}.",
             "sort.Strings is summarised (equality atoms carry no order): sortedness is 'emitted slice == last sorted slice, unmodified'. Loading the emitted YAML back is argued by composition (C14 key agreement + C01), not executed through yaml.v2. Stubs for everything up to ExtractSyscalls and for output.",
             "SMT-based symbolic execution of the real main() with symbolic table keys and equality-atom strings (z3 + cvc5)"),
 }
